@@ -12,7 +12,7 @@ import (
 
 const (
 	cellTol     = 1e-5 // absolute quadrature tolerance per top-level cell (cells carry about 1/128 of the mass); the error estimates actually incurred are accumulated and enter every decision
-	gridKV      = 16
+	gridBulk    = 12 // polar bins for the bulk of the primary lobe (plus ladder and uniform bins, see newWarp)
 	gridNPhi    = 8
 	integralTol = 1e-3 // clause (a): stated tolerance of the design
 	maxQuadErr  = 3e-3 // more accumulated quadrature error than this: the case is not decidable, skipped
@@ -110,7 +110,7 @@ func analyse(d dist) (an *analysis, skip string, err error) {
 		if !ok {
 			return an, "delta-lobe-not-isolated", nil
 		}
-		if math.IsNaN(f0) || math.IsInf(f0, 0) || f0 < 0 {
+		if math.IsNaN(f0) || math.IsInf(f0, 0) || f0 < -1e-9 {
 			return an, "", fmt.Errorf("density %g on the axis %v of the %s lobe", f0, l.axis, l.tag)
 		}
 		m := (f0 - fb) * frac
@@ -125,11 +125,11 @@ func analyse(d dist) (an *analysis, skip string, err error) {
 				pi = i
 			}
 		}
-		wu := 0.125
+		uni := 2
 		if len(an.smooth) > 1 {
-			wu = 0.5
+			uni = 8
 		}
-		an.g = newGrid(an.smooth[pi], wu, gridKV, gridNPhi)
+		an.g = newGrid(an.smooth[pi], gridBulk, uni, gridNPhi)
 		an.hasGrid = true
 		q := &integ{f: d.density, maxEvals: 4000000, maxDepth: 8}
 		for i, l := range an.smooth {
